@@ -82,10 +82,10 @@ AnyP::UriScheme::defaultPort() const
         return 21;
 
     case AnyP::PROTO_COAP:
-    case AnyP::PROTO_COAPS:
-        // coaps:// default is TBA as of draft-ietf-core-coap-08.
-        // Assuming IANA policy of allocating same port for base and TLS protocol versions will occur.
         return 5683;
+
+    case AnyP::PROTO_COAPS:
+        return 5684; // RFC 7252 section 6.2
 
     case AnyP::PROTO_WAIS:
         return 210;
